@@ -2345,8 +2345,11 @@ func (n *RegexNode) FindStartingLiteralNode(allowZeroWidth bool) *RegexNode {
 				node = node.Children[0]
 				continue
 			case NtLoop, NtLazyloop:
-				node = node.Children[0]
-				continue
+				// the body of a loop is only guaranteed to run when there's a minimum iteration
+				if node.M > 0 {
+					node = node.Children[0]
+					continue
+				}
 			case NtPosLook:
 				if allowZeroWidth {
 					node = node.Children[0]
